@@ -235,7 +235,7 @@ namespace occa {
           ->
           for (NULL; NULL; x += INC)
           ->
-          for (x = xTile; x < (xTile + TILE); x += INC)
+          for (x = xTile; x < (xTile + (TILE * (INC))); x += INC)
         */
         auto &blockDecls = ((declarationStatement*) blockForSmnt.init)->declarations;
         token_t *declVarSource = blockDecls[0].variable().source;
@@ -264,11 +264,12 @@ namespace occa {
         // Create check statement
         // Note: At this point, the tile for-loop has an update
         //       with either an [+=] or [-=] update operator
-        expr tileSizeInParen = expr::parens(tileSizeExpr);
+        // A block spans what the block loop advances by: TILE, or ((TILE) * (INC))
+        expr blockSpan = expr::parens(updateExpr.rightValue);
         expr bounds = expr::parens(
           (updateExpr.opType() & operatorType::addEq)
-          ? blockIterator + tileSizeInParen
-          : blockIterator - tileSizeInParen
+          ? blockIterator + blockSpan
+          : blockIterator - blockSpan
         );
 
         const binaryOperator_t &checkOp = (const binaryOperator_t&) checkExpr.op;
